@@ -205,6 +205,14 @@ func vfRunReset(t *testing.T, spec *vfSpec, res *vfRes) {
 						run.writes = append(run.writes, vfWriteRec{Idx: 0, Size: 10, PPI: 53, Hash: vfMsgHash(53, msg), Accepted: err == nil, Err: err, Unordered: unordered})
 						run.mu.Unlock()
 					}
+					if spec.x("idle_close", 0) == 1 {
+						// a stream that was opened but never written to (the peer does not know it) is closed at the same
+						// instant, first: its identifier may share the reset request with the active stream's
+						if idle, ierr := aw.OpenStream(200+sid+uint16(10*inc), PayloadTypeWebRTCBinary); ierr == nil { //nolint:gosec
+							_ = idle.Close()
+							res.count("c14_idle_closes", 1)
+						}
+					}
 					if err := wst.Close(); err != nil {
 						res.violate("C14", "close/error", "incarnation %d of stream %d: Close returned %v", inc, sid, err)
 					}
@@ -507,7 +515,7 @@ func vfGenResetSpecs(tier string, seed uint64, race bool) []vfSpec {
 		sp.X = map[string]int64{
 			"streams": int64(r.Pick(1, 1, 2, 4, 16)), "incarnations": int64(r.Pick(1, 2, 3, 5)), "q": int64(r.Pick(0, 1, 3, 10, 40, 200)),
 			"unordered": int64(r.Intn(2)), "slow_reader": int64(r.Intn(3) / 2), "alternate": int64(r.Intn(2)),
-			"settle_ms": int64(r.Pick(0, 0, 50, 3000)),
+			"settle_ms": int64(r.Pick(0, 0, 50, 3000)), "idle_close": int64(r.Intn(2)),
 		}
 		if sp.X["q"] == 200 {
 			sp.X["streams"] = int64(r.Pick(1, 2))
